@@ -978,6 +978,9 @@ func (b *TB) iBin(op Op, x, y *Term) *Term {
 		}
 	}
 	isC := func(t *Term, v int64) bool { return t.IsConst() && t.val.IsInt64() && t.val.Int64() == v }
+	if (op == OIAdd || op == OIMul) && x.id > y.id {
+		x, y = y, x // commutative: canonical argument order
+	}
 	switch op {
 	case OIAdd:
 		if isC(x, 0) {
